@@ -18,6 +18,7 @@ use std::str::FromStr;
 pub const THOROUGH_MULT: usize = 20;
 pub const PLAYOUT_PLIES: usize = 300;
 
+pub const SCENARIOS: usize = 500; // synthesized special-move scenarios per stream
 pub const C01_POS: usize = 20_000;
 pub const C01_LEGAL_QUICK: usize = 150;
 pub const C01_LEGAL_THOROUGH: usize = 3000;
@@ -163,9 +164,49 @@ fn emit_pos(cx: &mut Ctx, b: &Board) {
     cx.sink.emit(ops::pos(b));
 }
 
+
+// ------------------------------------------------------------------ special-move scenarios (gens::special_scenario)
+
+/// For `n` synthesized scenarios: the root, the forced chain, every legal move of the last chain
+/// position and every successor, as POS / MAKE / NULL lines according to the flags.
+fn emit_scenarios(cx: &mut Ctx, n: usize, pos: bool, makes: bool, nulls: bool) {
+    let mut done = 0usize;
+    let mut tries = 0usize;
+    while done < n && tries < n * 40 {
+        tries += 1;
+        let (root, forced) = match special_scenario(&mut cx.rng) { Some(x) => x, None => continue };
+        done += 1;
+        cx.sink.count("special_scenarios");
+        if makes { cx.sink.begin_group(); }
+        let mut cur = root;
+        if pos { emit_pos(cx, &cur); }
+        for m in forced.iter() {
+            if makes { cx.sink.emit(ops::make(&cur, *m).0); }
+            cur = match guard(|| cur.make_move_new(*m)) { Some(b) => b, None => break };
+            if pos { emit_pos(cx, &cur); }
+        }
+        let ms = ops::moves_of(&cur).unwrap_or_default();
+        if makes { emit_makes(cx, &cur); }
+        if nulls { cx.sink.emit(ops::null(&cur).0); }
+        for m in ms.iter() {
+            let info = classify(&cur, *m);
+            if info.ep { cx.sink.count("scenario_ep_captures"); }
+            if let Some(nb) = guard(|| cur.make_move_new(*m)) {
+                if nb.checkers().popcnt() > 0 && info.ep { cx.sink.count("scenario_ep_captures_giving_check"); }
+                if nb.checkers().popcnt() > 1 { cx.sink.count("scenario_double_checks"); }
+                if pos && (info.ep || info.castle || info.promo || info.capture || nb.checkers().popcnt() > 0 || cx.rng.chance(1, 6)) { emit_pos(cx, &nb); }
+                if nulls && (info.ep || cx.rng.chance(1, 4)) { cx.sink.emit(ops::null(&nb).0); }
+            }
+        }
+        if makes { cx.sink.end_group(); }
+    }
+}
+
 // ------------------------------------------------------------------ C01
 
 fn c01(cx: &mut Ctx) {
+    let sc = cx.n(SCENARIOS);
+    emit_scenarios(cx, sc, true, false, false);
     let n = cx.n(C01_POS);
     let nlegal = if cx.thorough { C01_LEGAL_THOROUGH } else { C01_LEGAL_QUICK };
     let every = (n / nlegal).max(1);
@@ -201,6 +242,8 @@ fn emit_makes(cx: &mut Ctx, b: &Board) -> usize {
 }
 
 fn c02(cx: &mut Ctx) {
+    let sc = cx.n(SCENARIOS);
+    emit_scenarios(cx, sc, false, true, false);
     let n = cx.n(C02_POSITIONS);
     // positions are thinned along the playouts, but positions offering ep / castling / promotion
     // are always taken
@@ -233,6 +276,8 @@ fn c02(cx: &mut Ctx) {
 // ------------------------------------------------------------------ C03
 
 fn c03(cx: &mut Ctx) {
+    let sc = cx.n(SCENARIOS);
+    emit_scenarios(cx, sc, true, true, true);
     let n = cx.n(C03_POS);
     position_stream(cx, n, Style::Tactical, 12, 10, |cx, b, via_null| {
         if via_null {
@@ -272,6 +317,8 @@ fn exhaustive_3men(cx: &mut Ctx, p: Piece) {
 }
 
 fn c04(cx: &mut Ctx) {
+    let sc = cx.n(SCENARIOS);
+    emit_scenarios(cx, sc * 2, true, false, false);
     let n = cx.n(C04_POS);
     let mut count = 0usize;
     let roots = cx.corpus.boards.clone();
@@ -357,6 +404,8 @@ fn tree_size(b: &Board, depth: usize, cap: usize) -> usize {
 }
 
 fn c05(cx: &mut Ctx) {
+    let sc = cx.n(SCENARIOS);
+    emit_scenarios(cx, sc, false, true, false);
     let playouts = cx.n(C05_PLAYOUTS);
     let roots = cx.corpus.boards.clone();
     for i in 0..playouts {
@@ -1282,6 +1331,8 @@ fn c17(cx: &mut Ctx) {
 }
 
 fn c18(cx: &mut Ctx) {
+    let sc = cx.n(SCENARIOS);
+    emit_scenarios(cx, sc, false, false, true);
     let n = cx.n(C18_NULL);
     position_stream(cx, n, Style::Tactical, 8, 20, |cx, b, via_null| {
         cx.sink.note_position(b);
